@@ -51,10 +51,41 @@ func (o *Overlay) Write(dir string) (string, error) {
 
 // Sync rewrites the imports of sync and os/exec of the given file to the verifhook shims.
 func (o *Overlay) Sync(file, dir string) error {
-	fset := token.NewFileSet()
-	f, err := parser.ParseFile(fset, file, nil, parser.ParseComments)
+	// the file is taken from its type-checked package, so that a range over a channel can be told
+	// from the other ranges
+	cfg := &packages.Config{Dir: RepoDir, Mode: packages.NeedName | packages.NeedFiles | packages.NeedCompiledGoFiles | packages.NeedSyntax | packages.NeedTypes | packages.NeedTypesInfo | packages.NeedImports | packages.NeedDeps,
+		Env: append(os.Environ(), "GOFLAGS=-mod=mod", "GOPROXY=off", "GOSUMDB=off", "GOTOOLCHAIN=local")}
+	pkgs, err := packages.Load(cfg, "file="+file)
 	if err != nil {
 		return err
+	}
+	var fset *token.FileSet
+	var f *ast.File
+	var info *types.Info
+	for _, p := range pkgs {
+		for i, name := range p.CompiledGoFiles {
+			if name == file && i < len(p.Syntax) {
+				fset, f, info = p.Fset, p.Syntax[i], p.TypesInfo
+			}
+		}
+	}
+	if f == nil {
+		// the package does not load (it should: the repository builds): fall back on the syntax alone
+		fset = token.NewFileSet()
+		if f, err = parser.ParseFile(fset, file, nil, parser.ParseComments); err != nil {
+			return err
+		}
+	}
+	isChan := func(e ast.Expr) bool {
+		if info == nil {
+			return false
+		}
+		t := info.TypeOf(e)
+		if t == nil {
+			return false
+		}
+		_, ok := t.Underlying().(*types.Chan)
+		return ok
 	}
 	n := 0
 	for _, is := range f.Imports {
@@ -87,10 +118,80 @@ func (o *Overlay) Sync(file, dir string) error {
 		ngo++
 		return true
 	}, nil)
+	// channel operations -> verifhook.Send / Recv / Recv2 / Close (the stand-ins make a task waiting
+	// on a channel visible to the scheduler); select statements and range over channels are refused
+	nchan := 0
+	hook := func(name string, args ...ast.Expr) *ast.CallExpr {
+		nchan++
+		return &ast.CallExpr{Fun: &ast.SelectorExpr{X: ast.NewIdent("verifhookgo"), Sel: ast.NewIdent(name)}, Args: args}
+	}
+	var unsupported string
+	astutil.Apply(f, func(c *astutil.Cursor) bool {
+		switch n := c.Node().(type) {
+		case *ast.SelectStmt:
+			for _, cl := range n.Body.List {
+				if cc, ok := cl.(*ast.CommClause); ok && cc.Comm != nil {
+					unsupported = fmt.Sprintf("%s: select over channels is not supported by the scheduler stand-ins", fset.Position(n.Pos()))
+				}
+			}
+		case *ast.SendStmt:
+			c.Replace(&ast.ExprStmt{X: hook("Send", n.Chan, n.Value)})
+		case *ast.AssignStmt:
+			if len(n.Lhs) == 2 && len(n.Rhs) == 1 {
+				if u, ok := n.Rhs[0].(*ast.UnaryExpr); ok && u.Op == token.ARROW {
+					n.Rhs[0] = hook("Recv2", u.X)
+				}
+			}
+		case *ast.ValueSpec:
+			if len(n.Names) == 2 && len(n.Values) == 1 {
+				if u, ok := n.Values[0].(*ast.UnaryExpr); ok && u.Op == token.ARROW {
+					n.Values[0] = hook("Recv2", u.X)
+				}
+			}
+		case *ast.UnaryExpr:
+			if n.Op == token.ARROW {
+				c.Replace(hook("Recv", n.X))
+			}
+		case *ast.CallExpr:
+			if id, ok := n.Fun.(*ast.Ident); ok && len(n.Args) == 1 {
+				switch {
+				case id.Name == "close":
+					c.Replace(hook("Close", n.Args[0]))
+				case id.Name == "len" && isChan(n.Args[0]):
+					c.Replace(hook("Len", n.Args[0]))
+				case id.Name == "cap" && isChan(n.Args[0]):
+					c.Replace(hook("Cap", n.Args[0]))
+				}
+			}
+		case *ast.RangeStmt:
+			if !isChan(n.X) {
+				break
+			}
+			// for v := range ch { body }  ->  for { v, ok := Recv2(ch); if !ok { break }; body }
+			if n.Value != nil || (n.Key != nil && n.Tok != token.DEFINE) {
+				unsupported = fmt.Sprintf("%s: this form of range over a channel is not supported by the scheduler stand-ins", fset.Position(n.Pos()))
+				break
+			}
+			key := ast.Expr(ast.NewIdent("_"))
+			if n.Key != nil {
+				key = n.Key
+			}
+			okID := ast.NewIdent("verifhookOK")
+			recv := &ast.AssignStmt{Lhs: []ast.Expr{key, okID}, Tok: token.DEFINE, Rhs: []ast.Expr{hook("Recv2", n.X)}}
+			stop := &ast.IfStmt{Cond: &ast.UnaryExpr{Op: token.NOT, X: okID}, Body: &ast.BlockStmt{List: []ast.Stmt{&ast.BranchStmt{Tok: token.BREAK}}}}
+			body := &ast.BlockStmt{List: append([]ast.Stmt{recv, stop}, n.Body.List...)}
+			c.Replace(&ast.ForStmt{Body: body})
+		}
+		return true
+	}, nil)
+	if unsupported != "" {
+		return fmt.Errorf("%s", unsupported)
+	}
+	ngo += nchan
 	if ngo > 0 {
 		imp := &ast.ImportSpec{Name: ast.NewIdent("verifhookgo"), Path: &ast.BasicLit{Kind: token.STRING, Value: strconv.Quote(HookPath)}}
 		f.Decls = append([]ast.Decl{&ast.GenDecl{Tok: token.IMPORT, Specs: []ast.Spec{imp}}}, f.Decls...)
-		n += ngo
+		n += ngo - nchan
 	}
 	var buf bytes.Buffer
 	if err := format.Node(&buf, fset, f); err != nil {
